@@ -53,10 +53,15 @@ class Report:
         print("UNDECIDED property=%s rule=%s instance=%s: %s" % (self.pid, rid, key, why))
 
     def floor(self, rid, what, count, floor):
-        """fail closed when a rule matched fewer sites than were confirmed by hand on the pinned tree"""
+        """fail closed when a rule matched far fewer sites than were confirmed by hand on the pinned tree.  `floor` is the number counted on the pinned tree;
+        the check trips below 60 % of it (never below 1; floors of 1 and 2 are exact): consolidating refactorings - a generic helper instead of ten wrappers, a
+        table lookup instead of seventeen arms - legitimately reduce such counts, while a rule that went blind finds none or a handful."""
+        counted = floor
+        if floor > 2:
+            floor = max(1, int(floor * 0.6))
         if count < floor:
             self.violations.append(dict(rule=rid, key="coverage:%s" % what,
-                                        msg="coverage floor not reached for %s: found %d, confirmed floor %d (anchor moved or rule went blind)" % (what, count, floor),
+                                        msg="coverage floor not reached for %s: found %d, counted on the pinned tree %d, floor %d (anchor moved or rule went blind)" % (what, count, counted, floor),
                                         where=None))
             self.rules[rid]["instances"] += 1
 
